@@ -183,7 +183,7 @@ def harness(flavour="base", shared=False, extra_defs=(), tag=""):
                 if f.endswith((".c", ".S")) and not f.startswith("standalone_"):
                     srcs.append(os.path.join(d, f))
         cflags = ["-std=gnu11", "-O2", "-g", "-Wall", "-Wextra", "-Wno-unused-parameter",
-                  "-Wno-deprecated-declarations", "-Wno-missing-field-initializers",
+                  "-Wno-deprecated-declarations", "-Wno-missing-field-initializers", "-Wno-clobbered",
                   "-D_GNU_SOURCE", "-DREF_HAVE_OPENSSL", "-DREF_HAVE_OPENSSL_SM",
                   "-I" + libdir, "-I" + hd, "-I" + os.path.join(hd, "ref"), "-pthread"]
         cflags += ["-D" + d for d in extra_defs]
